@@ -139,17 +139,7 @@ func runC07(c *Ctx) {
 			c.bad("R07.1", cons2, p.pos(oc.Pos()), "the forwarding goroutine is never started")
 		}
 		for _, s := range spawns {
-			fn := s.Parent()
-			underOnce := false
-			for _, mc := range p.closure[fn] {
-				for _, ref := range *mc.Referrers() {
-					if ci, ok := ref.(*ssa.Call); ok && calleeName(ci) == "(*sync.Once).Do" {
-						if fa, ok := ci.Common().Args[0].(*ssa.FieldAddr); ok && types.Identical(fa.X.Type(), types.NewPointer(r.TConn)) {
-							underOnce = true
-						}
-					}
-				}
-			}
+			underOnce := c.onlyUnderConnOnce(s.Parent(), 0)
 			c.check(underOnce, "R07.1", cons2, c.ipos(s), "under the connection's sync.Once", "the forwarding goroutine can be started more than once for a connection: two forwarders split the registrations and values of one stream are written out of order")
 		}
 		// sole receiver of registrations: every non-send use of the registration channel is in the forwarder
@@ -456,4 +446,50 @@ func (c *Ctx) arrivalOrderRule(rule string) {
 			c.bad(rule, fmt.Sprintf("%s: enqueue before starting the next read", fname(w.ReadFrame)), p.pos(w.ReadFrame.Pos()), "the frame reader no longer restarts the socket read after queueing a frame")
 		}
 	}
+}
+
+// onlyUnderConnOnce: fn only ever runs as (part of) the function handed to Do of a sync.Once
+// that is a field of the connection.
+func (c *Ctx) onlyUnderConnOnce(fn *ssa.Function, depth int) bool {
+	p, r := c.P, c.R
+	if depth > ipMaxDepth {
+		return false
+	}
+	n := 0
+	for _, ci := range p.callers[fn] {
+		call, ok := ci.(*ssa.Call)
+		if !ok {
+			return false
+		}
+		n++
+		if !c.onlyUnderConnOnce(call.Parent(), depth+1) {
+			return false
+		}
+	}
+	for _, mc := range p.closure[fn] {
+		for _, ref := range *mc.Referrers() {
+			switch x := ref.(type) {
+			case *ssa.DebugRef:
+			case *ssa.Call:
+				if x.Common().Value == ssa.Value(mc) {
+					n++
+					if !c.onlyUnderConnOnce(x.Parent(), depth+1) {
+						return false
+					}
+					continue
+				}
+				if calleeName(x) != "(*sync.Once).Do" {
+					return false
+				}
+				fa, ok := x.Common().Args[0].(*ssa.FieldAddr)
+				if !ok || !types.Identical(fa.X.Type(), types.NewPointer(r.TConn)) {
+					return false
+				}
+				n++
+			default:
+				return false
+			}
+		}
+	}
+	return n > 0
 }
